@@ -141,26 +141,74 @@ func Discharge(cfg *SolverCfg, obls []*Obligation) {
 		go func(o *Obligation) {
 			defer wg.Done()
 			defer func() { <-sem }()
-			as, g := withHints(o.Assump, o.Goal)
-			q := Query(as, g, false)
-			if len(q) > 4<<20 {
-				o.Status = "failed-unknown"
-				o.Output = fmt.Sprintf("verification condition too large (%d bytes)", len(q))
-				return
+			// a conjunctive goal is proved conjunct by conjunct (each gets its own skolemisation and hints)
+			goals := []*Term{o.Goal}
+			if o.Goal.Op == "and" {
+				goals = o.Goal.Args
 			}
-			a := solveQuery(cfg, q, o.Name)
-			o.Solver = a.solver
-			o.Ms = a.ms
-			switch a.status {
-			case "unsat":
-				o.Status = "discharged"
-			case "sat":
-				o.Status = "failed-sat"
-				o.Model = modelFor(cfg, o.Assump, o.Goal)
-				o.Output = a.out
-			default:
-				o.Status = "failed-unknown"
-				o.Output = a.status + ": " + strings.TrimSpace(a.out)
+			o.Status = "discharged"
+			for gi, goal := range goals {
+				as, g := withHints(o.Assump, goal)
+				// stage A: ground instances only (quantified assumptions dropped: sound, and usually enough)
+				var ground []*Term
+				for _, t := range as {
+					if t.Op == "forall" || t.Op == "exists" || (t.Op == "=>" && (t.Args[1].Op == "forall")) || containsQuant(t) {
+						continue
+					}
+					ground = append(ground, t)
+				}
+				if len(ground) < len(as) && !containsQuant(g) {
+					qa := Query(ground, g, false)
+					aa := solveGround(cfg, qa)
+					if aa.ms > 1500 && os.Getenv("GVC_SLOW") != "" {
+						fmt.Printf("  slowground %s [%d/%d] %dms %s size=%d\n", o.Name, gi+1, len(goals), aa.ms, aa.status, len(qa))
+					}
+					if aa.status == "unsat" {
+						if o.Solver == "" {
+							o.Solver = aa.solver
+						}
+						o.Ms += aa.ms
+						continue
+					}
+					o.Ms += aa.ms
+				}
+				q := Query(as, g, false)
+				if len(q) > 4<<20 {
+					o.Status = "failed-unknown"
+					o.Output = fmt.Sprintf("verification condition too large (%d bytes)", len(q))
+					return
+				}
+				a := solveQuery(cfg, q, o.Name)
+				if o.Solver == "" || a.status != "unsat" {
+					o.Solver = a.solver
+				}
+				o.Ms += a.ms
+				if a.ms > 1500 && os.Getenv("GVC_SLOW") != "" {
+					gs := goal.String()
+					if len(gs) > 200 {
+						gs = gs[:200]
+					}
+					fmt.Printf("  slowconj %s [%d/%d] %dms %s: %s\n", o.Name, gi+1, len(goals), a.ms, a.solver, gs)
+				}
+				switch a.status {
+				case "unsat":
+				case "sat":
+					o.Status = "failed-sat"
+					o.Model = modelFor(cfg, o.Assump, goal)
+					o.Output = a.out
+					return
+				default:
+					o.Status = "failed-unknown"
+					if d := os.Getenv("GVC_DUMPFAIL"); d != "" {
+						os.WriteFile(fmt.Sprintf("%s/fail_%d_%d.smt2", d, o.Path, gi+1), []byte(q), 0o644)
+					}
+					gs := goal.String()
+					if len(gs) > 300 {
+						gs = gs[:300] + "..."
+					}
+					o.Output = fmt.Sprintf("%s: %s\nconjunct %d of %d: %s", a.status, strings.TrimSpace(a.out), gi+1, len(goals), gs)
+					return
+				}
 			}
 		}(o)
 	}
@@ -170,5 +218,75 @@ func Discharge(cfg *SolverCfg, obls []*Obligation) {
 // CheckSat expects the assumptions to be satisfiable (vacuity guard). Returns "sat", "unsat" or "unknown".
 func CheckSat(cfg *SolverCfg, assump []*Term) solverAnswer {
 	q := Query(assump, nil, false)
-	return solveQuery(cfg, q, "vacuity")
+	id := atomic.AddInt64(&solverSeq, 1)
+	file := filepath.Join(cfg.WorkDir, fmt.Sprintf("v%06d.smt2", id))
+	if err := os.WriteFile(file, []byte(q), 0o644); err != nil {
+		return solverAnswer{status: "error"}
+	}
+	defer os.Remove(file)
+	hasQ := false
+	var ground []*Term
+	for _, t := range assump {
+		if containsQuant(t) {
+			hasQ = true
+		} else {
+			ground = append(ground, t)
+		}
+	}
+	if !hasQ {
+		a := runSolver(context.Background(), "z3-new", file, 3*time.Second)
+		if a.status == "sat" || a.status == "unsat" {
+			return a
+		}
+	}
+	// quantified preconditions: satisfiability of the quantifier-free part (Ref constructors left free)
+	gq := Query(ground, nil, false)
+	gq = stripQuantifiedAsserts(gq)
+	os.WriteFile(file, []byte(gq), 0o644)
+	b := runSolver(context.Background(), "z3-new", file, 3*time.Second)
+	if b.status == "sat" && hasQ {
+		b.status = "sat (quantifier-free part)"
+	}
+	return b
+}
+
+
+func containsQuant(t *Term) bool {
+	if t.Op == "forall" || t.Op == "exists" {
+		return true
+	}
+	if t.size < 3 {
+		return false
+	}
+	for _, a := range t.Args {
+		if containsQuant(a) {
+			return true
+		}
+	}
+	return false
+}
+
+// solveGround tries the quantifier-free weakening of a query with a short timeout.
+func solveGround(cfg *SolverCfg, query string) solverAnswer {
+	id := atomic.AddInt64(&solverSeq, 1)
+	file := filepath.Join(cfg.WorkDir, fmt.Sprintf("g%06d.smt2", id))
+	if err := os.WriteFile(file, []byte(query), 0o644); err != nil {
+		return solverAnswer{status: "error"}
+	}
+	defer os.Remove(file)
+	a := runSolver(context.Background(), "z3-new", file, 3*time.Second)
+	a.solver = "z3-new(ground instances)"
+	return a
+}
+
+
+func stripQuantifiedAsserts(q string) string {
+	var out []string
+	for _, l := range strings.Split(q, "\n") {
+		if strings.HasPrefix(l, "(assert (forall") {
+			continue
+		}
+		out = append(out, l)
+	}
+	return strings.Join(out, "\n")
 }
